@@ -3,7 +3,7 @@ FRAGMENT = {
  'C08': {'bin': 'w_c08',
  'world': 'c08',
  'level': 'exploration',
- 'quick': {'runs': 12000, 'budget_s': 32, 'workers': 16},
+ 'quick': {'runs': 60000, 'budget_s': 32, 'workers': 16},
  'thorough': {'runs': 2000000, 'budget_s': 900, 'workers': 16, 'det_sample': 200},
  'level_text': 'seeded exploration of caption command histories on up to six of the eight channels x channel/field interleavings (seeded scheduler = the two '
                'field multiplexers, resume codes inserted on every sender change) x field-1 control code doubling (never / always / per code), against my own '
